@@ -166,6 +166,49 @@ Proof.
     specialize (Hlt n' Hin). lia.
 Qed.
 
+(* an operation that is not a removal (an insertion of one element, of all the elements of the other container, with a
+   position hint; select; swap) takes no element away: every element present before is present after it, at the same
+   place, with the same key *)
+Lemma missing_nil_inv l l' : missing l l' = [] -> forall p, In p l -> exists n, In n l' /\ n_id n = n_id p.
+Proof.
+  unfold missing. intros H p Hp. destruct (existsb (fun n => (n_id n =? n_id p)%nat) l') eqn:E.
+  - apply existsb_exists in E. destruct E as (n & Hn & En). exists n. split; auto. apply Nat.eqb_eq. exact En.
+  - exfalso. assert (Hin : In p (filter (fun p0 => negb (existsb (fun n => (n_id n =? n_id p0)%nat) l')) l)).
+    { apply filter_In. split; auto. rewrite E. reflexivity. }
+    rewrite H in Hin. destruct Hin.
+Qed.
+
+Lemma no_removal_step k cap st o st' ev n :
+  Inv k st -> removal_budget o = Some O -> step k cap st o = (st', ev) -> In n (all_elems st) ->
+  exists n', In n' (all_elems st') /\ n_id n' = n_id n /\ n_slot n' = n_slot n /\ n_key n' = n_key n.
+Proof.
+  intros HI Hb E Hn. pose proof (step_facts _ _ _ _ _ _ HI E) as F.
+  destruct (Inv_ids _ _ HI) as (Hnd & Hlt).
+  destruct (cont_op o) eqn:Eo.
+  - apply all_elems_in in Hn. destruct Hn as [Hn|Hn].
+    + pose proof (sf_lost _ _ _ _ _ F Eo) as Hl. unfold removed_ok in Hl. rewrite Hb in Hl.
+      apply andb_true_iff in Hl. destruct Hl as (Hl & _). apply Nat.leb_le in Hl.
+      assert (Hm : missing (elems (sel st)) (elems (sel st')) = []) by (destruct (missing _ _); [reflexivity|cbn in Hl; lia]).
+      destruct (missing_nil_inv _ _ Hm n Hn) as (n' & Hn' & En').
+      exists n'. split; [apply all_elems_in; auto|]. split; [exact En'|].
+      destruct (sf_nodes _ _ _ _ _ F Eo n' Hn') as [(H1 & _)|(n0 & Hn0 & (F1 & F2 & F3 & _))].
+      * assert (n_id n < s_nid st)%nat by (apply Hlt; apply all_elems_in; auto). lia.
+      * assert (n0 = n).
+        { apply (NoDup_ids_inj (all_elems st)); auto; [apply all_elems_in; auto|apply all_elems_in; auto|congruence]. }
+        subst n0. auto.
+    + exists n. split; [apply all_elems_in; right; rewrite (sf_other _ _ _ _ _ F Eo); exact Hn|auto].
+  - exists n. split; [|auto]. unfold step in E. destruct o; try discriminate.
+    + injection E as <- <-. exact Hn.
+    + destruct (has_swap k); injection E as <- <-; auto.
+      unfold all_elems in *. cbn [s_a s_b] in *. rewrite in_app_iff in *. tauto.
+Qed.
+
+Lemma no_removal_all k cap ops o st' ev n :
+  let st := run k cap (init k cap) ops in
+  removal_budget o = Some O -> step k cap st o = (st', ev) -> In n (all_elems st) ->
+  exists n', In n' (all_elems st') /\ n_id n' = n_id n /\ n_slot n' = n_slot n /\ n_key n' = n_key n.
+Proof. intros st. apply no_removal_step. apply reachable_inv. Qed.
+
 (* blocks are released only by the destructor *)
 Lemma no_free_outside_destroy k cap st o st' ev :
   Inv k st -> step k cap st o = (st', ev) -> o <> ODestroy -> Forall not_free ev.
@@ -192,16 +235,16 @@ Proof.
     apply (count_occ_In sdec) in Hs. apply (count_occ_In sdec) in Hin. lia.
 Qed.
 
-Definition is_insert (o : op) : bool := match o with OApp _ _ | OPre _ _ | OInsAt _ _ _ => true | _ => false end.
+Definition is_insert (o : op) : bool := match o with OApp _ _ | OPre _ _ | OInsAt _ _ _ | OHint _ _ _ => true | _ => false end.
 
-Lemma insert_slot_fresh k pos key val c o ser nid c' ser' nid' ev n' :
-  shape k c -> PInv c o ser nid -> c_insert k pos key val c ser nid = (c', ser', nid', ev) ->
+Lemma ins_eff_slot_fresh k key val c o ser nid c' ser' nid' ev n' :
+  PInv c o ser nid -> InsEff k key val c ser nid c' ser' nid' ev ->
   In n' (elems c') -> (nid <= n_id n')%nat ->
   ~ In (n_slot n') (slots (elems c) ++ slots (elems o)) /\
   (In (n_slot n') (p_free (c_pool c)) \/ (ser <= fst (n_slot n'))%nat).
 Proof.
-  intros Hs [H1 H2 H3 H4] E Hn' Hnew.
-  destruct (c_insert_effect _ _ _ _ _ _ _ _ _ _ _ Hs E)
+  intros [H1 H2 H3 H4] E Hn' Hnew.
+  destruct E
     as (_ & _ & [(-> & -> & Ep & Hel)|(-> & nd & l1 & l2 & ser1 & ev1 & ev2 & E1 & E2 & E3 & Hle & Ea & _)]).
   - exfalso. rewrite Forall_forall in H2.
     assert (Hid : In (n_id n') (ids (elems c) ++ ids (elems o))).
@@ -227,6 +270,13 @@ Proof.
       specialize (H4 _ Hc). cbn in H4. lia.
 Qed.
 
+Lemma insert_slot_fresh k pos key val c o ser nid c' ser' nid' ev n' :
+  shape k c -> PInv c o ser nid -> c_insert k pos key val c ser nid = (c', ser', nid', ev) ->
+  In n' (elems c') -> (nid <= n_id n')%nat ->
+  ~ In (n_slot n') (slots (elems c) ++ slots (elems o)) /\
+  (In (n_slot n') (p_free (c_pool c)) \/ (ser <= fst (n_slot n'))%nat).
+Proof. intros Hs Hp E. eapply ins_eff_slot_fresh; eauto. eapply c_insert_eff; eauto. Qed.
+
 Lemma alloc_never_live_step k cap st o st' ev n' :
   Inv k st -> is_insert o = true -> step k cap st o = (st', ev) ->
   In n' (all_elems st') -> (s_nid st <= n_id n')%nat ->
@@ -237,6 +287,17 @@ Proof.
   destruct (Inv_ids _ _ HI) as (_ & Hlt).
   assert (Hsl : forall s, In s (slots (all_elems st)) <-> In s (slots (elems (sel st)) ++ slots (elems (other st)))).
   { intros s. unfold all_elems, slots, sel, other. rewrite map_app, !in_app_iff. destruct (s_cur st); tauto. }
+  assert (G0 : forall key val c' ser' nid' ev',
+             InsEff k key val (sel st) (s_ser st) (s_nid st) c' ser' nid' ev' ->
+             st' = set_sel st c' ser' nid' ->
+             ~ In (n_slot n') (slots (all_elems st)) /\
+             (In (n_slot n') (p_free (c_pool (sel st))) \/ (s_ser st <= fst (n_slot n'))%nat)).
+  { intros key val c' ser' nid' ev' Ei ->.
+    destruct (set_sel_facts st c' ser' nid') as (F1 & F2 & _).
+    apply all_elems_in in Hn'. rewrite F1, F2 in Hn'. destruct Hn' as [Hn'|Hn'].
+    - destruct (ins_eff_slot_fresh _ _ _ _ _ _ _ _ _ _ _ _ Hp Ei Hn' Hnew) as (G1 & G2). split; auto.
+      rewrite Hsl. exact G1.
+    - assert (n_id n' < s_nid st)%nat by (apply Hlt; apply all_elems_in; auto). lia. }
   assert (G : forall pos key val c' ser' nid' ev',
              c_insert k pos key val (sel st) (s_ser st) (s_nid st) = (c', ser', nid', ev') ->
              st' = set_sel st c' ser' nid' ->
@@ -255,4 +316,8 @@ Proof.
     injection E as <- <-. eapply G; eauto.
   - destruct (c_insert k pos k0 v (sel st) (s_ser st) (s_nid st)) as [[[c' ser'] nid'] ev'] eqn:Ei.
     injection E as <- <-. eapply G; eauto.
+  - destruct (has_hint k).
+    + destruct (c_insert_hint k pos k0 v (sel st) (s_ser st) (s_nid st)) as [[[c' ser'] nid'] ev'] eqn:Ei.
+      injection E as <- <-. eapply G0; eauto. eapply c_insert_hint_eff; eauto.
+    + injection E as <- <-. destruct (Inv_ids _ _ HI) as (_ & Hlt2). specialize (Hlt2 n' Hn'). lia.
 Qed.
